@@ -837,6 +837,12 @@ func runC19d(args []string) error {
 				return err
 			}
 			var err error
+			var wrapAny struct {
+				Case json.RawMessage `json:"case"`
+			}
+			if json.Unmarshal(x.Input, &wrapAny) == nil && wrapAny.Case != nil {
+				x.Input = wrapAny.Case // a per-hand-over record wraps the scenario it came from
+			}
 			if x.Kind == "proposal" {
 				err = c19dRunProposal(co, x.Input)
 			} else if x.Kind == "witness" {
@@ -1769,7 +1775,7 @@ func c19dRunWitness(co *caseOut, raw json.RawMessage) error {
 		for _, s := range a.Signers {
 			ss = append(ss, coqZi(int64(s))+"%Z")
 		}
-		co.add("stale", fmt.Sprintf("n%d/subset", in.N), true, map[string]any{"case": in, "accept": a.Node, "height": a.Height}, a,
+		co.add("witness", fmt.Sprintf("n%d/subset", in.N), true, map[string]any{"case": in, "accept": a.Node, "height": a.Height}, a,
 			fmt.Sprintf("CWitness %d %d %s %s %s %s", in.N, a.View, coqList(vs), coqList(ss), coqBool(a.OwnOK), coqBool(a.OtherOK)))
 	}
 	co.add("witness", fmt.Sprintf("n%d", in.N), distinct > 1, in, map[string]any{"distinct_witnesses": distinct, "checks": len(items)},
